@@ -166,7 +166,10 @@ class FPCoreContext:
                 if ctx.nmin == -1:
                     return FPCoreContext(precision='integer', round=rm)
                 else:
-                    return FPCoreContext(n=ctx.nmin, round=rm)
+                    # FPCore names no unbounded fixed-point format other than
+                    # `integer`; a property it does not define would be ignored
+                    # and the operations evaluated under the default `binary64`
+                    raise RuntimeError(f'Cannot convert to an FPCore context {ctx}')
             case FixedContext():
                 if not ctx.signed:
                     raise RuntimeError('Cannot convert unsigned FixedContext to an FPCore context')
